@@ -332,6 +332,8 @@ class Gen:
         if not hs:
             return None
         src = src if src is not None else self.choice(hs)
+        if self.t[src].val.dtype != np.float64:
+            return None  # x**2 vs power(x, 2) promote differently for float32 (C03/C11 territory)
         e = self.choice([1, 2, 3])
         return self._emit_op("power", [{"t": src}, {"c": e}], spell=self.choice(["f", "o"]))
 
